@@ -8,5 +8,5 @@ CONSTANTS N = 3
           NC = 2
           N3 = 0
           CaseCap = 1300
-INVARIANTS ProxySortedUnique ChainsDisjoint C04_OneSeriesPerLset C04_ExactWhenIdentical C04_Provenance OutIncreasing
+INVARIANTS ProxySortedUnique FramesRejoined ChainsDisjoint C04_OneSeriesPerLset C04_ExactWhenIdentical C04_Provenance OutIncreasing
 CHECK_DEADLOCK FALSE
